@@ -119,6 +119,32 @@ func init() {
 		}
 		sb.WriteString("\ndef getLiveNodesShape : List String := " + LeanStrList(c18StmtShape(gl.Body.List)) + "\n")
 		sb.WriteString("\ndef getLiveNodesCalls : List String := " + LeanStrList(CallSeq(gl)) + "\n")
+		// which event type each watch callback of the master's state machines emits (create callback first,
+		// delete callback second): node registration -> NodeStartup / NodeFailure, database config ->
+		// DatabaseConfigChanged / DatabaseConfigDeletion, shard assignment -> ShardAssignmentChanged / ...Deletion
+		var evTypes []string
+		for _, fn := range []string{"createStorageNodeStateMachine", "createDatabaseConfigStateMachine", "createShardAssignmentStateMachine"} {
+			fd := FindFunc(smf, "StateMachineFactory", fn)
+			if fd == nil {
+				return "", fmt.Errorf("StateMachineFactory.%s not found", fn)
+			}
+			var ts []string
+			ast.Inspect(fd, func(n ast.Node) bool {
+				switch x := n.(type) {
+				case *ast.KeyValueExpr:
+					if id, ok := x.Key.(*ast.Ident); ok && id.Name == "Type" {
+						ts = append(ts, types.ExprString(x.Value))
+					}
+				case *ast.CallExpr:
+					if sel, ok := x.Fun.(*ast.SelectorExpr); ok && sel.Sel.Name == "NewStateMachine" && len(x.Args) >= 4 {
+						ts = append(ts, "watch "+types.ExprString(x.Args[3]))
+					}
+				}
+				return true
+			})
+			evTypes = append(evTypes, fn+": "+strings.Join(ts, ", "))
+		}
+		sb.WriteString("\ndef factoryEventTypes : List String := " + LeanStrList(evTypes) + "\n")
 		capv := int64(-1)
 		ast.Inspect(FindFunc(sm, "", "NewStateManager"), func(n ast.Node) bool {
 			if ce, ok := n.(*ast.CallExpr); ok {
